@@ -39,6 +39,14 @@ def c08_opts():
                        descriptors=[['p'], ['p'], ['p.0'], ['p.1'], ['i'], ['j'], ['*'], ['p.0', 'p.1']], faults=False)
 
 
+def c08_dataflow_opts():
+    """targetless transitions whose <assign>s enable guarded eventless transitions: 'no external event is taken while an
+    eventless transition is enabled' needs data to be interesting"""
+    o = gen.dataflow_profile()
+    o.descriptors = [['p'], ['p.0'], ['p.1'], ['p'], ['i']]
+    return o
+
+
 def retarget_raises(ch):
     """raise only the internal names i / j so that internal and external events are distinguishable"""
     if getattr(ch, '_c08', False):
@@ -61,7 +69,7 @@ def check_case(ctx, ch, nprod, nper, mode, sched, engine, variant="san"):
     try:
         r = ctx.worker(variant).call("producers", xml, engine, str(nprod), str(nper), str(mode), " ".join(map(str, sched)), timeout=40)
     except WorkerCrash as e:
-        raise Failure("crash", {"stderr": e.stderr[-2500:], "signature": crash_signature(e.stderr)})
+        raise Failure("crash", {"stderr": crash_excerpt(e.stderr), "signature": crash_signature(e.stderr)})
     except WorkerHang:
         raise Failure("hang", {"signature": "hang"})
     if r.get("exception"):
@@ -131,6 +139,9 @@ def shard_main(ctx):
         ctx.replay_corpus(mod)
     ctx.run_hypothesis(case_s, lambda ch, n, m, mode, sched, eng: check_case(ctx, ch, n, m, mode, sched, eng), p["cases"] // ctx.nshards + 1,
                        lambda ch, n, m, mode, sched, eng: dict(case_repr(ch, []), args=[n, m, mode, sched, eng]))
+    ctx.run_hypothesis([gen.dataflow_charts('lua', events=('p', 'p.0', 'p.1'), internal='j')] + case_s[1:], lambda ch, n, m, mode, sched, eng: check_case(ctx, ch, n, m, mode, sched, eng),
+                       p["cases"] // (3 * ctx.nshards) + 1,
+                       lambda ch, n, m, mode, sched, eng: dict(case_repr(ch, []), args=[n, m, mode, sched, eng]), name="dataflow")
     if p["tsan_cases"] and os.path.exists(os.path.join(harness.WORK, "bin", "worker-tsan")):
         w = ctx.worker("tsan")
         ctx.run_hypothesis(case_s, lambda ch, n, m, mode, sched, eng: check_case(ctx, ch, n, min(m, 15), mode, sched, eng, "tsan"),
